@@ -178,6 +178,7 @@ type remote struct {
 	// C16 monitor: what we asked of storrent
 	unchokedByStorrent bool
 	pendingUp          []rc.Msg // our requests storrent may still answer
+	cancelledUp        []rc.Msg // requests we cancelled (a Fast peer acknowledges with a reject)
 	sentInterested     bool
 	served             int
 	lastEmittedChoke   int
@@ -305,8 +306,22 @@ func buildInfo(g wgeom, truth []byte, name string, padTo int) []byte {
 var discardLog = log.New(io.Discard, "", 0)
 
 // newWorld builds the world; must be called inside a bubble.
+func geomByName(name string) wgeom {
+	if g, ok := wgeoms[name]; ok {
+		return g
+	}
+	// "n:<pieces>[:<bytes missing from the last piece>]" : one-block pieces
+	var n, miss int
+	if _, err := fmt.Sscanf(name, "n:%d:%d", &n, &miss); err != nil {
+		if _, err := fmt.Sscanf(name, "n:%d", &n); err != nil {
+			panic("unknown geometry " + name)
+		}
+	}
+	return wgeom{name, wchunk, int64(n)*wchunk - int64(miss)}
+}
+
 func newWorld(cfg worldCfg) *World {
-	g := wgeoms[cfg.Geom]
+	g := geomByName(cfg.Geom)
 	w := &World{cfg: cfg, g: g, consumers: map[string]int{}}
 	w.truth = make([]byte, g.Length)
 	for i := range w.truth {
@@ -666,10 +681,21 @@ func (r *remote) onFrame(m rc.Msg, raw []byte) {
 		if !r.cfg.Fast {
 			w.problem("C11", "C11/fast-message-to-non-fast-peer", "RejectRequest sent to remote %d which did not negotiate the Fast extension", r.idx)
 		}
-		for j, q := range r.pendingUp {
+		// a reject first acknowledges a request we cancelled ourselves
+		ack := false
+		for j, q := range r.cancelledUp {
 			if q.Index == m.Index && q.Begin == m.Begin && q.Length == m.Length {
-				r.pendingUp = append(r.pendingUp[:j], r.pendingUp[j+1:]...)
+				r.cancelledUp = append(r.cancelledUp[:j], r.cancelledUp[j+1:]...)
+				ack = true
 				break
+			}
+		}
+		if !ack {
+			for j, q := range r.pendingUp {
+				if q.Index == m.Index && q.Begin == m.Begin && q.Length == m.Length {
+					r.pendingUp = append(r.pendingUp[:j], r.pendingUp[j+1:]...)
+					break
+				}
 			}
 		}
 	case rc.Interested, rc.NotInterested, rc.KeepAlive, rc.Port, rc.ExtPex, rc.ExtMetadata:
@@ -855,6 +881,18 @@ func (w *World) apply(tr string) bool {
 		} else if j := r.findOutstanding(m.Index, m.Begin, o.Length); j >= 0 {
 			r.outstanding = append(r.outstanding[:j], r.outstanding[j+1:]...)
 		}
+	case "ansq": // eager data: a block storrent has queued for this peer but not yet requested
+		if r.closed || r.exited() {
+			return false
+		}
+		st := r.p.VerifState()
+		if len(st.Queue) == 0 {
+			return false
+		}
+		c := st.Queue[0]
+		idx, beg := c/w.g.cpp(), (c%w.g.cpp())*wchunk
+		off := int64(c) * wchunk
+		r.send(rc.Msg{Kind: rc.Piece, Index: idx, Begin: beg, Data: append([]byte{}, w.truth[off:off+int64(w.g.chunkLen(c))]...)})
 	case "rej":
 		if r.closed || !r.cfg.Fast || len(r.outstanding) == 0 {
 			return false
@@ -919,6 +957,7 @@ func (w *World) apply(tr string) bool {
 		q := r.pendingUp[0]
 		r.send(rc.Msg{Kind: rc.Cancel, Index: q.Index, Begin: q.Begin, Length: q.Length})
 		r.pendingUp = r.pendingUp[1:]
+		r.cancelledUp = append(r.cancelledUp, q)
 		r.grace = r.grace || r.stalled
 	case "ucancelx": // a Cancel that matches nothing
 		if r.closed {
@@ -983,6 +1022,12 @@ func (w *World) apply(tr string) bool {
 		if cnt == 0 {
 			return false
 		}
+	case "cmd": // cmd:<remote>:<chunk>  the scheduler commands this peer to fetch one more block (real request())
+		c := uint32(arg(2))
+		if r.exited() || int(c) >= w.g.nchunks() || !r.adv[c/w.g.cpp()] || w.t.Pieces.Complete(c/w.g.cpp()) {
+			return false
+		}
+		w.call("request", func() { request(w.t, r.p, []uint32{c}) })
 	case "unchokepeer": // the torrent decides to unchoke / choke remote k directly
 		writePeer(r.p, peer.PeerUnchoke{Unchoke: true})
 	case "chokepeer":
